@@ -9,6 +9,7 @@ import (
 
 	"google.golang.org/grpc/metadata"
 
+	ae "github.com/godaddy/asherah/go/appencryption"
 	pb "github.com/godaddy/asherah/server/go/api"
 	"github.com/godaddy/asherah/server/go/pkg/server"
 
@@ -146,6 +147,65 @@ func runSrvMulti(variant int) *srvCase {
 	if err := a.eof(); err != nil {
 		viol("stream A ended with %v", err)
 	}
+	return cs
+}
+
+// runSrvRotate: one stream stays open while the partition's intermediate key expires and is rotated (virtual clock).  Every record the
+// stream hands out - before and after the rotation - must decrypt on that stream and on a later one.
+func runSrvRotate() *srvCase {
+	cs := &srvCase{Multi: "key rotation during an open stream"}
+	viol := func(f string, a ...any) { cs.Viol = append(cs.Viol, fmt.Sprintf(f, a...)) }
+	now := int64(1790000000) * int64(time.Second)
+	ae.VerifSetNow(func() time.Time { return time.Unix(0, now) })
+	defer ae.VerifSetNow(time.Now)
+	app := server.NewAppEncryption(&server.Options{ServiceName: "svc", ProductID: "prod", Metastore: "memory", KMS: "static",
+		ExpireAfter: 100 * time.Second, CheckInterval: 10 * time.Second})
+	gs := func(id string) *pb.SessionRequest {
+		return &pb.SessionRequest{Request: &pb.SessionRequest_GetSession{GetSession: &pb.GetSession{PartitionId: id}}}
+	}
+	enc := func(p int) *pb.SessionRequest {
+		return &pb.SessionRequest{Request: &pb.SessionRequest_Encrypt{Encrypt: &pb.Encrypt{Data: srvPayload(p)}}}
+	}
+	dec := func(r *pb.DataRowRecord) *pb.SessionRequest {
+		return &pb.SessionRequest{Request: &pb.SessionRequest_Decrypt{Decrypt: &pb.Decrypt{DataRowRecord: r}}}
+	}
+	a := openStream(app)
+	if r := a.call(gs("a")); r == nil || r.GetErrorResponse() != nil {
+		viol("get-session failed: %v", r)
+		return cs
+	}
+	var recs []*pb.DataRowRecord
+	for p := 1; p <= 3; p++ {
+		r := a.call(enc(p))
+		if r == nil || r.GetEncryptResponse() == nil {
+			viol("encrypt %d on an established session was answered with %v", p, r)
+			return cs
+		}
+		recs = append(recs, r.GetEncryptResponse().GetDataRowRecord())
+		now += int64(130 * time.Second) // past the key's lifetime: the next encrypt rotates the intermediate key
+	}
+	if recs[0].GetKey().GetParentKeyMeta().GetCreated() == recs[2].GetKey().GetParentKeyMeta().GetCreated() {
+		cs.Note = "no rotation happened (scenario ineffective)"
+	}
+	check := func(who string, st *chanStream) {
+		for p, rec := range recs {
+			r := st.call(dec(rec))
+			if r == nil || r.GetDecryptResponse() == nil || string(r.GetDecryptResponse().GetData()) != string(srvPayload(p+1)) {
+				viol("%s: the record returned by encrypt %d (parent key created %d) was answered with %v", who, p+1, rec.GetKey().GetParentKeyMeta().GetCreated(), r)
+			}
+		}
+	}
+	check("same stream", a)
+	if err := a.eof(); err != nil {
+		viol("stream ended with %v", err)
+	}
+	b := openStream(app)
+	if r := b.call(gs("a")); r == nil || r.GetErrorResponse() != nil {
+		viol("second stream: get-session failed: %v", r)
+		return cs
+	}
+	check("a later stream", b)
+	b.eof()
 	return cs
 }
 
@@ -318,6 +378,7 @@ func runSrv(a *args) error {
 			for v := 0; v < 4; v++ {
 				out = append(out, runSrvMulti(v))
 			}
+			out = append(out, runSrvRotate())
 			return gen.WriteJSON(a.out, map[string]any{"cases": out})
 		}
 		cs := &srvCase{Reqs: rp.Case.Reqs}
@@ -347,6 +408,7 @@ func runSrv(a *args) error {
 	for v := 0; v < 4; v++ {
 		out = append(out, runSrvMulti(v))
 	}
+	out = append(out, runSrvRotate())
 	for i := 0; i < a.n; i++ {
 		n := 4 + r.Intn(12)
 		cs := &srvCase{}
